@@ -67,6 +67,11 @@ theorem score_is_best_mean (m : Bool) (l : List Metrics.FV) :
     | none => ∀ a, Metrics.FV.val a ∉ l :=
   Metrics.nanBest_spec m l
 
+/-- a NaN among several executions reported at one step is not dropped: that step's mean is NaN (and is then ignored for the best
+value unless every step is NaN) — the per-step mean is numpy's `mean`, not `nanmean` -/
+theorem nan_execution_makes_the_step_nan (l : List Metrics.FV) (h : Metrics.FV.nan ∈ l) : Metrics.mean l = .nan :=
+  Metrics.mean_nan_of_mem l h
+
 /-- a trial whose objective is NaN never counts as completed -/
 theorem nan_never_completed {V A : Type} (alg : Core.Alg V A) (maxRetries : Nat) (t : Core.Trial V) (oc : Core.Outcome) :
     (Core.endDecision alg maxRetries t oc).st = .completed → (Core.endDecision alg maxRetries t oc).sc.isSome :=
